@@ -10,9 +10,16 @@ mc:       spec/ClusteringImpl.tla - the statement-by-statement pipelines of
           InUnitInterval, ZeroWhenNoTriangleOrDegLT2, MaskInv, HalvingExact, ...
 gen/run:  the nine real functions on every model graph (TLC-enumerated; isolated nodes,
           stars, triangle-free graphs included) binary / weighted / signed, int-dtype
-          binary inputs, and seeded random + structured graphs n in 6..10.
+          binary inputs, and seeded random + structured graphs n in 6..10; plus the SCALE
+          regimes (scale_jobs): dense 25..60-node networks (dense block + sparse tail + isolated
+          node, dense G(n,p), rings of big cliques, complete) undirected and oriented, handed as
+          float64/int64/int32/int16/uint16/int8/uint8/bool arrays, and 130..300-node networks
+          (hub of degree > 127 / > 181, rings of many small cliques, isolated nodes).
 validate: spec/Trace_Clustering.tla judges every record (EqualsDefinition exact fraction vs
           10^-6 fixed point, ExactZeroCases from a per-entry `== 0.0` flag, Range01, Returns).
+          Records with more than 10 nodes are judged against the same definitions enumerated
+          over pairs of neighbours (Clustering.tla Part 1b; equality with the node-triple
+          enumeration is an invariant of every MC_Clustering instance).
 
 Numbers: the harness sends the integer matrix C of cube-root numerators and d; the float
 input is W = sign(C) * (|C|/d)**3, so every expected value is an exact fraction in TLC.
@@ -77,6 +84,30 @@ def arg_dtype(fn, dtype):
     return rc.admissible(NP_DTYPE.get(dtype, dtype), binary=fn in BINARY_FNS)
 
 
+WEIGHTED_FNS = (FN_WU, FN_WD, FN_TWU, FN_TWD)
+SMALL_INTS = ("int8", "uint8", "int16", "uint16")
+DT_SCALE = ("float64", "int64", "int32", "int16", "uint16", "int8", "uint8", "bool")     # 0/1 entries
+DT_SCALE_SIGNED = ("float64", "int64", "int32", "int16", "int8")                          # -1/0/+1 entries
+
+
+def scale_dtype(fn, dtype):
+    """as arg_dtype, but 8- and 16-bit integer arrays (entries 0/1, or -1/0/+1 for the signed
+    types) reach the routines whose first use of an entry is its cube root: the four weighted
+    routines (`W == 0` and cuberoot(W): float64 from there on) and clustering_coef_wu_sign
+    [default] (sign split `W * (W > 0)`, `-W * (W < 0)` - exact in a SIGNED type - then cuberoot).
+    A compactly stored 0/1 network is inside their documented domain (NxN weighted connection
+    matrix, weights in [0,1]); no sum or product of entries is formed in the argument's own type,
+    so the wrap-around caveat of rel_common (uint8) does not apply to them.  The binary routines
+    and the zhang/costantini branches (products of raw entries) keep the common mapping."""
+    if dtype in SMALL_INTS:
+        if fn in WEIGHTED_FNS:
+            return dtype
+        if fn == FN_SD:
+            return dtype.lstrip("u")                     # uint8 -> int8, uint16 -> int16
+        return "int32"
+    return arg_dtype(fn, dtype)
+
+
 def exec_job(job):
     C = np.array(job["C"], dtype=np.int64)
     d = int(job["d"])
@@ -111,11 +142,11 @@ def cmat(n, edges, und, val):
     return C
 
 
-def add_jobs(jobs, fns, C, d, src, dtype="float", layout="C"):
+def add_jobs(jobs, fns, C, d, src, dtype="float", layout="C", mapping=arg_dtype):
     """dtype: 'float' (float64), 'int' (int64) or a numpy dtype name = the input's DRAW; each
-    routine is handed arg_dtype(fn, draw).  Non-float dtypes need d = 1 (integer-valued W)."""
+    routine is handed mapping(fn, draw).  Non-float dtypes need d = 1 (integer-valued W)."""
     for fn in fns:
-        eff = arg_dtype(fn, dtype) if d == 1 else "float64"
+        eff = mapping(fn, dtype) if d == 1 else "float64"
         jobs.append(dict(fn=fn, C=C, d=d, dtype={"float64": "float", "int64": "int"}.get(eff, eff),
                          layout=layout, src=src))
 
@@ -242,6 +273,124 @@ def build_jobs(ctx):
     return jobs
 
 
+# ------------------------------------------------------------------ scale regimes
+# Everything above has at most 10 nodes: no degree, triangle count or sum leaves the range in which
+# EVERY number type is exact.  The families below visit the other regimes, a few inputs each:
+#  dense, 25..60 nodes   per-node triangle counts > 127 and > 2048, their sum > 2048 (26+ nodes),
+#                        > 32767 and > 65504 (46+ nodes): the ranges of int8 / float16-exact /
+#                        int16 / float16 / uint16 - for a narrow accumulator, an intermediate in
+#                        the ARGUMENT's type (8/16-bit integer, bool arrays), a rounded count;
+#  hub, 130..300 nodes   a degree K > 127 and K(K-1) > 32767; node numbers > 127 / > 255;
+#  many small cliques    130..300 nodes, all counts tiny, node numbers large, isolated nodes.
+# Each support mixes nodes on many triangles with nodes on none (pendant path, isolated node).
+NO_LOOPS = [FN_BU, FN_WU, FN_TBU, FN_TWU, FN_SD, FN_BD, FN_WD, FN_TBD, FN_TWD]    # no O(n^3) python loop
+
+
+def _renumber(rng, n, E):
+    perm = list(range(n))
+    rng.shuffle(perm)
+    return sorted(set(tuple(sorted((perm[i], perm[j]))) for i, j in E if i != j))
+
+
+def s_block_tail(rng, m, t):
+    """dense block of m nodes (a clique minus a few edges), a pendant path of t nodes, one
+    isolated node -> (n, edges)"""
+    E = set(rc.s_complete(m))
+    for e in rng.sample(sorted(E), rng.randint(0, m)):
+        E.discard(e)
+    prev = rng.randrange(m)
+    for v in range(m, m + t):
+        E.add((prev, v))
+        prev = v
+    return m + t + 1, sorted(E)
+
+
+def s_hub(rng, n):
+    """node 0 joined to every node but the last (isolated) one; the rim carries a ring, a ring of
+    small cliques or a few chords -> triangles at the hub, rim nodes with and without"""
+    r = n - 2
+    E = [(0, j) for j in range(1, r + 1)]
+    kind = rng.choice(["wheel", "cliques", "chords"])
+    if kind == "wheel":
+        E += [(1 + i, 1 + (i + 1) % r) for i in range(r)]
+    elif kind == "cliques":
+        m = rng.choice([3, 4, 5])
+        E += [(1 + i, 1 + j) for (i, j) in rc.s_clique_ring(r // m, m)]
+    else:
+        for _ in range(rng.randint(3, 40)):
+            a, b = rng.sample(range(1, r + 1), 2)
+            E.append((a, b))
+    return kind, E
+
+
+def scale_supports(ctx, rng):
+    """-> list of (name, n, undirected edge list, regime)"""
+    out = []
+
+    def put(name, n, E, regime):
+        out.append((name, n, _renumber(rng, n, E), regime))
+    reps = 1 if ctx.quick else 4
+    for _ in range(reps):
+        # dense, beyond 2048 but below 32767
+        n, E = s_block_tail(rng, rng.randint(27, 40), rng.randint(2, 6))
+        put("block+tail+isolated", n, E, "dense")
+        n = rng.randint(26, 40)
+        p = rng.choice([0.7, 0.85, 0.95])
+        put("dense-random", n, [(i, j) for i in range(n) for j in range(i + 1, n) if rng.random() < p], "dense")
+        k, m = rng.choice([(2, 25), (2, 30), (3, 14), (3, 18), (4, 12)])
+        put("ring-of-big-cliques", k * m + 1, rc.s_clique_ring(k, m), "dense")
+        # dense, beyond 65535
+        n, E = s_block_tail(rng, rng.randint(48, 56), rng.randint(2, 5))
+        put("block+tail+isolated", n, E, "dense-big")
+        # many nodes
+        n = rng.randint(130, 300)
+        kind, E = s_hub(rng, n)
+        put("hub-" + kind, n, E, "many-nodes")
+        m = rng.choice([3, 3, 4])
+        k = rng.randint(130, 260) // m
+        put("ring-of-small-cliques+isolated", k * m + rng.randint(1, 4), rc.s_clique_ring(k, m), "many-nodes")
+    if not ctx.quick:
+        for n in (rng.randint(26, 45), rng.randint(46, 60)):
+            put("complete", n, rc.s_complete(n), "dense")             # every value exactly 1
+            put("dense-random", n, [(i, j) for i in range(n) for j in range(i + 1, n) if rng.random() < 0.9],
+                "dense-big" if n > 45 else "dense")
+    return out
+
+
+def scale_jobs(ctx):
+    rng = random.Random(ctx.seed * 7919 + 9)
+    jobs = []
+    for name, n, E, regime in scale_supports(ctx, rng):
+        src = "scale-%s-%s" % (regime, name)
+        lay = lambda: rng.choice(rc.LAYOUTS)
+        und_fns = UND_BIN if n <= 45 else [f for f in UND_BIN if f in NO_LOOPS]
+        ones = cmat(n, E, True, lambda i, j: 1)
+        if rng.random() < 0.5:      # orient: every connection one way, the other way, or both
+            arcs = rc.orient(rng, E)
+        else:                       # a reciprocal core (low-numbered nodes), the rest low -> high
+            q = rng.randint(2, max(2, n // 3))
+            arcs = [(i, j) for (i, j) in E] + [(j, i) for (i, j) in E if j < q]
+        dones = cmat(n, arcs, False, lambda i, j: 1)
+        # (a) one drawn dtype for all routines (each is handed scale_dtype(fn, draw))
+        add_jobs(jobs, und_fns, ones, 1, src, rng.choice(DT_SCALE), lay(), mapping=scale_dtype)
+        add_jobs(jobs, DIR_BIN, dones, 1, src + "-dir", rng.choice(DT_SCALE), lay(), mapping=scale_dtype)
+        # (b) the routines that admit 8/16-bit integer arrays: two of them drawn, 8-bit first
+        for dt in [rng.choice(["int8", "uint8"]), rng.choice(SMALL_INTS)]:
+            add_jobs(jobs, [FN_WU, FN_TWU, FN_SD], ones, 1, src, dt, lay(), mapping=scale_dtype)
+            add_jobs(jobs, [FN_WD, FN_TWD], dones, 1, src + "-dir", dt, lay(), mapping=scale_dtype)
+        if regime == "many-nodes":
+            continue
+        # (c) weights -1/+1 as a signed integer array; fractional weights (c/3)^3 (float64)
+        if n <= 45:
+            sgn = cmat(n, E, True, lambda i, j: rng.choice([-1, 1]))
+            add_jobs(jobs, SIGN, sgn, 1, src + "-signed-unit", rng.choice(DT_SCALE_SIGNED), lay(),
+                     mapping=scale_dtype)
+            ws = rng.choice(WSETS)
+            add_jobs(jobs, UND_W, cmat(n, E, True, lambda i, j: rng.choice(ws)), 3, src + "-w", "float", lay())
+            add_jobs(jobs, DIR_W, cmat(n, arcs, False, lambda i, j: rng.choice(ws)), 3, src + "-dir-w", "float", lay())
+    return jobs
+
+
 QUICK_MODELS = ["und_bin5", "dir_bin4", "und_w4", "dir_w3", "und_sign3", "und_sign4"]
 THOROUGH_MODELS = ["und_bin6", "dir_bin4", "und_w4all", "und_w5", "dir_w3", "und_sign3",
                    "und_sign4b", "und_sign4c"]
@@ -302,8 +451,27 @@ def what(job, rec, clause):
 def run(ctx):
     run_models(ctx, QUICK_MODELS if ctx.quick else THOROUGH_MODELS)
     jobs = build_jobs(ctx)
+    sjobs = scale_jobs(ctx)
+    # the scale records: their own pool call (pool chunks would put all the long calls into one
+    # worker) and their own TLC run, side by side with the batches of small records
+    srecs = pool.run_jobs(__name__, sjobs, limit=120.0)
+    box = {}
+
+    def judge_scale():
+        try:
+            box["v"] = ctx.validate("Trace_Clustering.tla", "Trace_Clustering.cfg", srecs,
+                                    tag="Trace_Clustering_scale")
+        except Exception as e:
+            box["e"] = e
+    th = threading.Thread(target=judge_scale)
+    th.start()
     recs = pool.run_jobs(__name__, jobs)
     verdicts = validate_parallel(ctx, recs)
+    th.join()
+    if "e" in box:
+        raise box["e"]
+    nbase = len(jobs)
+    jobs, recs, verdicts = jobs + sjobs, recs + srecs, verdicts + box["v"]
     tagjobs = [dict(j, dtype=NP_DTYPE.get(j.get("dtype", "float"), j.get("dtype"))) for j in jobs]
     ctx.judge(jobs, rc.tag_failures(ctx, tagjobs, recs, verdicts), verdicts, what=what)
     ctx.extra["argument_variants"] = rc.variant_counts(tagjobs)
@@ -324,20 +492,34 @@ def run(ctx):
                 "%d seeded structured (stars, disjoint triangles with isolated nodes, bipartite, rings, complete, "
                 "paths, caterpillars, rings of cliques, equal/unequal components) and random graphs n in 6..10, "
                 "directed and undirected, weight sets incl. single values and exactly 1, dtype/layout/option "
-                "choices drawn independently from the seeded RNG; non-trivial = distinct (function, input) in which some node lies on a triangle "
+                "choices drawn independently from the seeded RNG; scale regimes: dense 26..60-node networks "
+                "(dense block + pendant path + isolated node, dense G(n,p), rings of big cliques, complete) and "
+                "130..300-node networks (hub of degree > 127, rings of many small cliques, isolated nodes), "
+                "undirected and oriented, 0/1 entries as float64/int64/int32/bool and - for the weighted "
+                "routines - int16/uint16/int8/uint8 arrays, -1/+1 and (c/3)^3 weights up to 45 nodes; non-trivial = distinct (function, input) in which some node lies on a triangle "
                 "and some node lies on none" % (
                     5 if ctx.quick else 6,
                     "weighted versions of a drawn half of the 5-node graphs and quarter of the 4-node digraphs"
                     if ctx.quick else
                     "on 6 nodes: bu/transitivity_bu on all, the other undirected functions on a drawn 1/8, "
                     "weighted/signed on half of those", 120 if ctx.quick else 1000))
-    for k in (0, len(jobs) // 2, len(jobs) - 1):
+    for k in (0, nbase // 2, nbase - 1):
         ctx.add_sample("input", dict(job=jobs[k], record=recs[k], verdict=list(verdicts[k])))
+    sc = {}
+    for j, r, v in zip(sjobs, srecs, box["v"]):
+        key = "%s n=%d" % (j["src"], r.get("n", 0))
+        sc.setdefault(key, {}).setdefault("%s:%s" % (j["dtype"], v[0]), []).append(j["fn"])
+    ctx.extra["scale_inputs"] = sc
     ctx.assumptions += [
         "TLC evaluates the L0 triple-enumeration definitions correctly",
         "weighted/signed conformance only on cube-rational weights (c/3)^3, c in -3..3 (DESIGN 3.3, 7)",
         "observed floats compared at 10^-6 (tolerance 2 units); exact-zero claims from a `== 0.0` flag",
         "a transitivity of a network without any connected triple is undefined (0/0) and skipped",
+        "records with more than 10 nodes: definitions enumerated over pairs of neighbours (TLC proves them "
+        "equal to the node-triple enumeration on every model input); drift not evaluated above 12 nodes",
+        "8/16-bit integer arrays only to the routines that take the cube root of the entries first "
+        "(weighted routines, wu_sign[default] signed types); float32 arrays to none (errors below 10^-6 "
+        "are not observable)",
     ]
     return ctx.finish()
 
